@@ -230,7 +230,7 @@ func (u *Universe) MkSigned(label, op string, reveal *ref.Key, nextR, nextU stri
 		d.Authorised = d.Parses && signing == signed && !o.Tamper && o.Alter == nil
 		d.DeltaStatus = ref.DeltaInvalid
 	}
-	if op == "recover" && nextR == reveal.Commitment(u.Code) {
+	if op == "recover" && (nextR == reveal.Commitment(ref.SHA256) || nextR == reveal.Commitment(ref.SHA512)) {
 		d.Parses, d.Authorised = false, false // key re-use is refused by the parser in every mode
 	}
 	return d
